@@ -66,6 +66,12 @@ func kindRestrictedCalls(f *ssa.Function) []reflectCall {
 		wrong := ""
 		cond := func(facts []Fact) bool {
 			for _, fct := range facts {
+				// a kind predicate of the package: `if !isPointerKind(v.Kind()) { return }`
+				if pc, isCall := strip(fct.V).(*ssa.Call); isCall && fct.True {
+					if h := staticCallee(pc); h != nil && h.Pkg == f.Pkg && len(pc.Call.Args) == 1 && sameRecv(pc.Call.Args[0]) && kindPredicateAccepts(h, allowed) {
+						return true
+					}
+				}
 				b, ok := fct.V.(*ssa.BinOp)
 				if !ok || b.Op != token.EQL || !fct.True {
 					continue
@@ -285,6 +291,29 @@ func keyIDIsConfigured(v ssa.Value, depth int) string {
 		}
 	}
 	if !ok {
+		// a helper that receives the key name: every call site must pass the configured ARN
+		if p, isP := resolve(v).(*ssa.Parameter); isP && depth < 3 {
+			g := p.Parent()
+			idx := -1
+			for k, q := range g.Params {
+				if q == p {
+					idx = k
+				}
+			}
+			buildCallSiteIndex(g)
+			sites := callSiteIndex[orig(g)]
+			if idx >= 0 && len(sites) > 0 {
+				for _, ci := range sites {
+					if idx >= len(ci.Common().Args) {
+						return describeOperand(p)
+					}
+					if why := keyIDIsConfigured(ci.Common().Args[idx], depth+1); why != "" {
+						return why + " (passed to " + g.Name() + ")"
+					}
+				}
+				return ""
+			}
+		}
 		return describeOperand(resolve(v))
 	}
 	owner := namedTypeName(derefType(base.Type()))
@@ -456,7 +485,7 @@ func recoverReportsFailureRule(prop string, pkgs ...string) func(*Ctx) {
 // or a record, whose rendering includes the payload.
 func ruleC03SidecarLogsCarryNoPayload(c *Ctx) {
 	u := c.U2
-	c.rule("C03.sidecar-logs-carry-no-payload", "every operand of a log.Print*/Fatal*/Panic*, fmt.Print*/Fprint* call or an asherah log.Debugf call in the sidecar's server package has a basic type (string, number, bool) or is an error: no protobuf message, oneof wrapper, []byte or record reaches a logger (rendering a request prints its payload)", 4)
+	c.rule("C03.sidecar-logs-carry-no-payload", "every operand of a log.Print*/Fatal*/Panic*, fmt.Print*/Fprint* call or an asherah log.Debugf call in the sidecar's server package has a basic type (string, number, bool) or is an error: no protobuf message, oneof wrapper, []byte or record reaches a logger (rendering a request prints its payload)", 1)
 	n := 0
 	for _, f := range u.RepoFuncs {
 		root := rootFunc(f)
@@ -910,4 +939,187 @@ func countersCannotWrapRule(prop string, floor int, pkgs ...string) func(*Ctx) {
 			}
 		}
 	}
+}
+
+// kindPredicateAccepts: h(kind) bool returns true only when its parameter equals one of the allowed kinds.
+func kindPredicateAccepts(h *ssa.Function, allowed []int64) bool {
+	if h == nil || h.Blocks == nil || len(h.Params) != 1 {
+		return false
+	}
+	p := h.Params[0]
+	okKind := func(v ssa.Value) bool {
+		b, ok := v.(*ssa.BinOp)
+		if !ok || b.Op != token.EQL {
+			return false
+		}
+		x, y := b.X, b.Y
+		if _, isC := constOf(x); isC {
+			x, y = y, x
+		}
+		k, isC := constOf(y)
+		if !isC || k.Kind() != constant.Int || strip(x) != ssa.Value(p) {
+			return false
+		}
+		kv, _ := constant.Int64Val(k)
+		for _, a := range allowed {
+			if a == kv {
+				return true
+			}
+		}
+		return false
+	}
+	factsOK := func(facts []Fact) bool {
+		for _, f := range facts {
+			if f.True && okKind(f.V) {
+				return true
+			}
+		}
+		return false
+	}
+	var valueOK func(v ssa.Value, at *ssa.BasicBlock, depth int) bool
+	valueOK = func(v ssa.Value, at *ssa.BasicBlock, depth int) bool {
+		if k, isC := constOf(v); isC && k.Kind() == constant.Bool {
+			if !constant.BoolVal(k) {
+				return true
+			}
+			return holdsOnAllEntries(at, factsOK)
+		}
+		if okKind(v) {
+			return true
+		}
+		if phi, isPhi := v.(*ssa.Phi); isPhi && depth < 3 {
+			for k, e := range phi.Edges {
+				pred := phi.Block().Preds[k]
+				if kk, isC := constOf(e); isC && kk.Kind() == constant.Bool && constant.BoolVal(kk) {
+					if !factsOK(append(append([]Fact{}, factsAt(pred)...), edgeFacts(pred, phi.Block())...)) {
+						return false
+					}
+					continue
+				}
+				if !valueOK(e, pred, depth+1) {
+					return false
+				}
+			}
+			return true
+		}
+		return false
+	}
+	for _, r := range returnsOf(h) {
+		if len(r.Results) != 1 || !valueOK(r.Results[0], r.Block(), 0) {
+			return false
+		}
+	}
+	return true
+}
+
+// ---------------------------------------------------------------------------------------------
+// deferred closures guarded by the function's named error result ("clean up if we are returning an error")
+
+type errDefer struct {
+	G       *ssa.Function
+	D       *ssa.Defer
+	Bind    map[*ssa.FreeVar]*ssa.Alloc
+	ErrSlot *ssa.Alloc
+}
+
+// isResultSlot: a is a slot of f that some return of f loads as one of its results (a named result; with a defer present
+// go/ssa returns through such slots).
+func isResultSlot(f *ssa.Function, a *ssa.Alloc) bool {
+	for _, r := range returnsOf(f) {
+		for _, v := range r.Results {
+			if ld, ok := strip(v).(*ssa.UnOp); ok && ld.Op == token.MUL && ld.X == ssa.Value(a) {
+				return true
+			}
+		}
+	}
+	return false
+}
+
+// errGuardedDefers: the closures f defers that capture f's error result slot.
+func errGuardedDefers(f *ssa.Function) []errDefer {
+	var out []errDefer
+	allInstrs(f, func(i ssa.Instruction) {
+		d, ok := i.(*ssa.Defer)
+		if !ok {
+			return
+		}
+		mc, ok := d.Call.Value.(*ssa.MakeClosure)
+		if !ok {
+			return
+		}
+		g, ok := mc.Fn.(*ssa.Function)
+		if !ok || g.Blocks == nil {
+			return
+		}
+		e := errDefer{G: g, D: d, Bind: map[*ssa.FreeVar]*ssa.Alloc{}}
+		for k, b := range mc.Bindings {
+			a, isA := b.(*ssa.Alloc)
+			if !isA || k >= len(g.FreeVars) {
+				continue
+			}
+			e.Bind[g.FreeVars[k]] = a
+			if isErrorType(derefType(a.Type())) && isResultSlot(f, a) {
+				e.ErrSlot = a
+			}
+		}
+		if e.ErrSlot != nil {
+			out = append(out, e)
+		}
+	})
+	return out
+}
+
+// slotOf: the slot of the enclosing function that v (a load of a free variable of the closure) reads.
+func (e errDefer) slotOf(v ssa.Value) *ssa.Alloc {
+	ld, ok := strip(v).(*ssa.UnOp)
+	if !ok || ld.Op != token.MUL {
+		return nil
+	}
+	fv, ok := ld.X.(*ssa.FreeVar)
+	if !ok {
+		return nil
+	}
+	return e.Bind[fv]
+}
+
+// onError: instruction i of the closure runs only when the error result is non-nil.
+func (e errDefer) onError(i ssa.Instruction) bool {
+	for _, fct := range factsAt(i.Block()) {
+		if x, isNil, ok := nilTest(fct); ok && !isNil && e.slotOf(x) == e.ErrSlot {
+			return true
+		}
+	}
+	return false
+}
+
+// wipesOnError: the closure wipes (MemClr / a wiping helper) the content of slot `a` whenever the error result is non-nil;
+// nilled reports whether it also stores nil into that slot there.
+func (e errDefer) wipesOnError(a *ssa.Alloc) (wipes, nilled bool) {
+	allInstrs(e.G, func(i ssa.Instruction) {
+		if !e.onError(i) {
+			return
+		}
+		if arg, ok := wipeArg(i); ok && e.slotOf(arg) == a {
+			wipes = true
+		}
+		if st, ok := i.(*ssa.Store); ok && isNilValue(st.Val) {
+			if fv, isFV := st.Addr.(*ssa.FreeVar); isFV && e.Bind[fv] == a {
+				nilled = true
+			}
+		}
+	})
+	return
+}
+
+// slotHolding: the slot of f whose stores include v (a spilled parameter, a named result assigned from a call).
+func slotsHolding(f *ssa.Function, v ssa.Value) []*ssa.Alloc {
+	var out []*ssa.Alloc
+	allInstrs(f, func(i ssa.Instruction) {
+		if st, ok := i.(*ssa.Store); ok && strip(st.Val) == strip(v) {
+			if a, isA := st.Addr.(*ssa.Alloc); isA {
+				out = append(out, a)
+			}
+		}
+	})
+	return out
 }
